@@ -368,6 +368,13 @@ class TransformedParameter(AbstractParameter, Parametric, collections.abc.Callab
             self.x = x
         self._tensor = self.transform(self.x.tensor)
         self.listeners = []
+        # the transform can hold parameters and models (e.g. AffineTransform with a
+        # Parameter as loc, RescaledRateTransform with a tree model)
+        for value in vars(self.transform).values():
+            if isinstance(value, AbstractParameter):
+                value.add_parameter_listener(self)
+            elif hasattr(value, 'add_model_listener'):
+                value.add_model_listener(self)
 
     def parameters(self) -> list[AbstractParameter]:
         return self.x.parameters()
@@ -416,7 +423,8 @@ class TransformedParameter(AbstractParameter, Parametric, collections.abc.Callab
         self.fire_parameter_changed()
 
     def handle_model_changed(self, model, obj, index) -> None:
-        pass
+        self.need_update = True
+        self.fire_parameter_changed()
 
     def add_parameter_listener(self, listener) -> None:
         self.listeners.append(listener)
